@@ -218,7 +218,7 @@ Section Gen.
       - intros H. destruct p as [|c p].
         + left. apply (proj1 (EQ _ _)) in H. destruct H as [H _]. unfold target. rewrite <- H, ER. reflexivity.
         + right. split; auto. }
-    split.
+    split; [|split].
     - constructor.
       + apply sort_nodes_sorted.
         assert (K : forall (l : smap), NoDup (map fst l) -> NoDup (map fst (filter (fun e => negb (str_eqb (fst e) [])) l))).
@@ -228,14 +228,10 @@ Section Gen.
         now apply K.
       + apply Forall_forall. intros [p v] H. apply sort_nodes_In, filter_In in H. destruct H as [_ H].
         unfold path_lt. simpl in *. apply str_ltb_nil. destruct p; simpl in H; [discriminate | intro; discriminate].
-    - intros p v. rewrite MEM, EQ. split.
-      + intros [H1 H2]. subst v. destruct (AT p) as [X|X]; [congruence|]. repeat split; auto.
-        intros v' Hv'. apply (UP (p, v')). auto.
-      + intros (H1 & H2 & H3). split; auto.
-        pose proof (UP _ H1) as X. simpl in X.
-        destruct (AT p) as [Y|Y].
-        * rewrite Y in X. apply vle_none_inv in X. congruence.
-        * apply vle_antisym; auto.
+    - intros p v H. apply MEM in H. apply (proj1 (EQ _ _)) in H. destruct H as [H1 H2]. split; auto.
+      subst v. destruct (AT p) as [X|X]; [congruence|auto].
+    - intros p v H1 H2. exists (sel_get sel p). pose proof (UP _ H1) as X. simpl in X. split; auto.
+      apply MEM. apply (proj2 (EQ _ _)). split; auto. intros Y. rewrite Y in X. apply vle_none_inv in X. congruence.
   Qed.
 
   Theorem build_list_gen_spec N fuel :
@@ -291,13 +287,43 @@ End Plain.
 Lemma mvs_solution_ext (R1 R2 : node -> Prop) l :
   (forall n, R1 n <-> R2 n) -> mvs_solution R1 l -> mvs_solution R2 l.
 Proof.
-  intros H [S M]. split; auto. intros p v. rewrite M. rewrite (H (p, v)).
-  split; intros (A & B & C); repeat split; auto; intros v' Hv'; apply C; now apply H.
+  intros H (S & M & C). split; [auto|split].
+  - intros p v Hin. destruct (M p v Hin). split; auto. now apply H.
+  - intros p v Hr Hv. apply C; auto. now apply H.
+Qed.
+
+Lemma sorted_key_unique l p v w : StronglySorted path_lt l -> In (p, v) l -> In (p, w) l -> v = w.
+Proof.
+  intros S H1 H2. pose proof (sorted_nodup_keys l S) as ND.
+  clear S. induction l as [|[q x] l IH]; simpl in *; [tauto|]. inversion ND; subst.
+  destruct H1 as [H1|H1], H2 as [H2|H2].
+  - congruence.
+  - inversion H1; subst. exfalso. apply H3. now apply (in_map fst _ (p, w)).
+  - inversion H2; subst. exfalso. apply H3. now apply (in_map fst _ (p, v)).
+  - auto.
 Qed.
 
 Lemma mvs_solution_unique R l1 l2 : mvs_solution R l1 -> mvs_solution R l2 -> l1 = l2.
 Proof.
-  intros [S1 M1] [S2 M2]. apply sorted_unique; auto. intros [p v]. now rewrite M1, M2.
+  assert (K : forall a b, mvs_solution R a -> mvs_solution R b -> forall x, In x a -> In x b).
+  { intros a b (S1 & M1 & C1) (S2 & M2 & C2) [p v] H.
+    destruct (M1 _ _ H) as [Hr Hv]. destruct (C2 _ _ Hr Hv) as (w & Hw & Le).
+    destruct (M2 _ _ Hw) as [Hr2 Hv2]. destruct (C1 _ _ Hr2 Hv2) as (v2 & Hv2' & Le2).
+    assert (v2 = v) by (exact (sorted_key_unique a p v2 v S1 Hv2' H)). subst v2.
+    assert (v = w) by (apply vle_antisym; auto). now subst. }
+  intros A B. apply sorted_unique; [apply A|apply B|]. intros x; split; eapply K; eauto.
+Qed.
+
+(** the member for a path is the highest reachable version of that path *)
+Lemma mvs_solution_highest R l : mvs_solution R l ->
+  forall p v, In (p, v) l <-> (R (p, v) /\ v <> VNone /\ forall v', R (p, v') -> vle v' v = true).
+Proof.
+  intros (S & M & C) p v. split.
+  - intros H. destruct (M _ _ H) as [Hr Hv]. repeat split; auto. intros v' Hr'.
+    destruct (version_eqb_spec v' VNone) as [E|E]; [subst; apply vle_none|].
+    destruct (C _ _ Hr' E) as (w & Hw & Le). assert (w = v) by (exact (sorted_key_unique l p w v S Hw H)). now subst.
+  - intros (Hr & Hv & Hm). destruct (C _ _ Hr Hv) as (w & Hw & Le). destruct (M _ _ Hw) as [Hr2 _].
+    assert (v = w) by (apply vle_antisym; auto). now subst.
 Qed.
 
 (** ** the universe: every reachable node is listed in [u_nodes] *)
